@@ -54,10 +54,13 @@ func classify(path string) string {
 	case strings.HasSuffix(path, ".sst"):
 		buf := make([]byte, 8192)
 		buf = buf[:runtime.Stack(buf, false)]
-		if bytes.Contains(buf, []byte("rotateMemtable.func1.1")) {
+		// (by what is on the writer's stack, not by how the closures of
+		// rotateMemtable happen to be numbered: a table written under the compactor
+		// is a compaction's, any other written by a task of rotateMemtable a flush's)
+		if bytes.Contains(buf, []byte("sst.(*Compactor)")) {
 			return ClCompact
 		}
-		if bytes.Contains(buf, []byte("rotateMemtable.func1")) {
+		if bytes.Contains(buf, []byte("rotateMemtable")) {
 			return ClFlush
 		}
 		return ClOther
